@@ -4,7 +4,6 @@ import (
 	"bytes"
 	"fmt"
 	"os"
-	"os/exec"
 	"regexp"
 	"strings"
 	"time"
@@ -235,7 +234,7 @@ func runHistories(o *Options, hs []*history) error {
 		if err := os.WriteFile(file, []byte(sb.String()), 0o644); err != nil {
 			return err
 		}
-		out, err := exec.Command("timeout", "1200", "coqc", "-Q", o.CoqDir, "DT", "-Q", dir, "HCases", file).CombinedOutput()
+		out, err := coqcCmd("1200", "-Q", o.CoqDir, "DT", "-Q", dir, "HCases", file).CombinedOutput()
 		if err != nil {
 			return fmt.Errorf("coqc on %s: %v\n%s", file, err, tail(string(out), 1500))
 		}
